@@ -125,6 +125,29 @@ var roleTable = []roleSpec{
 		return calledFrom(w, w.Func("pkg/protocol", "", "normalizePath"), fi) && fi.Obj.Type().(*types.Signature).Params().Len() == 2 &&
 			callsWhere(fi, func(f *types.Func, _ *ast.CallExpr) bool { return f.Name() == "IndexByte" })
 	}},
+	{"pkg/protocol", "", "addLeadingSlash", func(w *core.World, fi *core.FuncInfo) bool {
+		// loop-free (dst, src []byte) []byte called by the normaliser that appends the '/' byte
+		sig := fi.Obj.Type().(*types.Signature)
+		if sig.Params().Len() != 2 || sig.Results().Len() != 1 || !calledFrom(w, w.Func("pkg/protocol", "", "normalizePath"), fi) {
+			return false
+		}
+		info := fi.Pkg.TypesInfo
+		slash, loop := false, false
+		ast.Inspect(fi.Decl.Body, func(n ast.Node) bool {
+			switch x := n.(type) {
+			case *ast.ForStmt, *ast.RangeStmt:
+				loop = true
+			case *ast.CallExpr:
+				if isBuiltin(info, x, "append") && len(x.Args) == 2 {
+					if c, ok := constInt(info, x.Args[1]); ok && c == '/' {
+						slash = true
+					}
+				}
+			}
+			return true
+		})
+		return slash && !loop
+	}},
 	{"pkg/protocol", "", "decodeArgAppend", func(w *core.World, fi *core.FuncInfo) bool {
 		return calledFrom(w, w.Func("pkg/protocol", "argsScanner", "next"), fi) && fi.Obj.Type().(*types.Signature).Params().Len() == 2
 	}},
@@ -205,6 +228,27 @@ var fieldRoleTable = []fieldRole{
 		}
 		return false
 	}},
+	{"pkg/network/standard", "transport", "ln", func(w *core.World, f *types.Var, uses []fieldUse) bool {
+		// the only field holding the listening socket
+		return f.Type().String() == "net.Listener"
+	}},
+	{"pkg/route", "Engine", "allNoRoute", func(w *core.World, f *types.Var, uses []fieldUse) bool {
+		// the chain rebuilt from the registered NoRoute handlers: X = combineHandlers(noRoute)
+		for _, u := range uses {
+			if strings.HasPrefix(u.kind, "assign-call:") && strings.HasSuffix(u.kind, ":noRoute") {
+				return true
+			}
+		}
+		return false
+	}},
+	{"pkg/route", "Engine", "allNoMethod", func(w *core.World, f *types.Var, uses []fieldUse) bool {
+		for _, u := range uses {
+			if strings.HasPrefix(u.kind, "assign-call:") && strings.HasSuffix(u.kind, ":noMethod") {
+				return true
+			}
+		}
+		return false
+	}},
 	{"pkg/protocol/http1", "HostClient", "connsCount", func(w *core.World, f *types.Var, uses []fieldUse) bool {
 		inc, dec := false, false
 		for _, u := range uses {
@@ -247,6 +291,21 @@ func installFieldRoles(w *core.World, r *core.Report) {
 							k = "dec"
 						}
 						uses[v] = append(uses[v], fieldUse{fi, x, k})
+					}
+				case *ast.AssignStmt:
+					// field = callee(…, otherField, …): "assign-call:<callee>:<otherField>"
+					if len(x.Lhs) == 1 && len(x.Rhs) == 1 {
+						if v := usedVar(info, x.Lhs[0]); v != nil && v.IsField() {
+							if c, ok := unparen(x.Rhs[0]).(*ast.CallExpr); ok {
+								if f := calleeOf(info, c); f != nil {
+									for _, a := range c.Args {
+										if av := usedVar(info, a); av != nil && av.IsField() {
+											uses[v] = append(uses[v], fieldUse{fi, x, "assign-call:" + f.Name() + ":" + av.Name()})
+										}
+									}
+								}
+							}
+						}
 					}
 				case *ast.CallExpr:
 					if f := calleeOf(info, x); f != nil {
